@@ -210,7 +210,15 @@ impl BasicLexer {
         }
         if let Some(Token::Unknown(_)) = tokens.last() {
             if let Some(Token::Unknown(s)) = tokens.pop() {
-                tokens.push(Token::Unknown(s.trim_end().into()));
+                let trimmed = s.trim_end();
+                if trimmed.is_empty() {
+                    // nothing but white space (a carriage return, a no-break space ...)
+                    if let Some(Token::Whitespace(_)) = tokens.last() {
+                        tokens.pop();
+                    }
+                } else {
+                    tokens.push(Token::Unknown(trimmed.into()));
+                }
             }
         }
     }
